@@ -105,7 +105,7 @@ def dump_real(objs, codec, encoding, how, tmpdir):
     kw = _kw(codec, encoding)
     w = None
     if how == 'path':
-        target = os.path.join(tmpdir, 'dump.jsonl')
+        target = os.path.join(tmpdir, _name('dump'))
     elif how == 'open_obj':
         w = Writer()
         kw['open_obj'] = lambda name, mode, encoding=None: w
@@ -150,6 +150,14 @@ _PASS = [0]
 
 
 _LINES = [True]
+_NAMES = [0]
+
+
+def _name(stem):
+    """file names by turns: the extension says nothing about the content (the compression
+    is what the caller passes)"""
+    _NAMES[0] += 1
+    return stem + ['.jsonl', '.json.gz', '.zst', '.GZ', '.json', ''][_NAMES[0] % 6]
 
 
 def load_real(data, codec, encoding, how, plan, tmpdir):
@@ -160,7 +168,7 @@ def load_real(data, codec, encoding, how, plan, tmpdir):
     kw = _kw(codec, encoding)
     reader = None
     if how == 'path':
-        src = os.path.join(tmpdir, 'load.jsonl')
+        src = os.path.join(tmpdir, _name('load'))
         with open(src, 'wb') as f:
             f.write(data)
     elif how == 'open_obj':
